@@ -98,14 +98,27 @@ public:
     explicit constexpr glyph(char const *ustr) noexcept
       : ucharacter_{0}, charset_(terminalpp::charset::utf8)
     {
-        for (size_t index = 0; index < sizeof(ucharacter_); ++index)
-        {
-            ucharacter_[index] = static_cast<byte>(ustr[index]);
+        // Only the bytes of the first character are taken: ustr may point
+        // into a longer text, and whatever follows that character is not
+        // part of the glyph.  The lead byte says how many continuation
+        // bytes belong to it.
+        auto const lead = static_cast<byte>(ustr[0]);
+        size_t const length = (lead & 0x80) == 0x00 ? 1
+                            : (lead & 0xE0) == 0xC0 ? 2
+                                                    : sizeof(ucharacter_);
 
-            if (!(ucharacter_[index] & 0x80))
+        ucharacter_[0] = lead;
+
+        for (size_t index = 1; index < length; ++index)
+        {
+            auto const continuation = static_cast<byte>(ustr[index]);
+
+            if ((continuation & 0xC0) != 0x80)
             {
                 break;
             }
+
+            ucharacter_[index] = continuation;
         }
     }
 
